@@ -314,7 +314,8 @@ func cmdRun(args []string) int {
 			// shard order is permuted by the seed; nothing else is random
 			sh := (i + int(seed%int64(workers)) + workers) % workers
 			cmd := exec.Command("sh", "-c", fmt.Sprintf("ulimit -v 12000000; exec %s -check %s -tier %s -shard %d -nshards %d -budget %g -out %s", bin, id, tier, sh, workers, budget, out))
-			cmd.Env = append(os.Environ(), "GOMAXPROCS=1", "GOMEMLIMIT=3GiB")
+			marker := filepath.Join(w, fmt.Sprintf("marker_%d", i))
+			cmd.Env = append(os.Environ(), "GOMAXPROCS=1", "GOMEMLIMIT=3GiB", "VERIF_MARKER="+marker)
 			var eb bytes.Buffer
 			cmd.Stderr = &eb
 			cmd.Stdout = &eb
@@ -327,6 +328,23 @@ func cmdRun(args []string) int {
 			select {
 			case err := <-done:
 				if err != nil {
+					// A harness that dies of a fatal runtime error (out of memory, stack overflow ...) while
+					// evaluating an input it announced in its marker file has found a crash of the library.
+					if mb, merr := os.ReadFile(marker); merr == nil && len(mb) > 4 {
+						l := int(mb[0]) | int(mb[1])<<8 | int(mb[2])<<16 | int(mb[3])<<24
+						if l > 0 && l <= len(mb)-4 {
+							first := "fatal"
+							for _, ln := range strings.Split(eb.String(), "\n") {
+								if strings.HasPrefix(ln, "fatal error:") || strings.HasPrefix(ln, "runtime:") || strings.HasPrefix(ln, "panic:") {
+									first = ln
+									break
+								}
+							}
+							ev, _ := json.Marshal(map[string]any{"part": "crash", "key": "fatal-crash:" + first, "msg": "harness process died while evaluating the announced input:\n" + tail(eb.String(), 1500), "input": string(mb[4 : 4+l])})
+							results[i] = &shardResult{Check: id, Shard: sh, EnumViol: []json.RawMessage{ev}, Incomplete: []string{fmt.Sprintf("shard %d crashed", sh)}}
+							return
+						}
+					}
 					errs[i] = fmt.Sprintf("shard %d: %v\n%s", sh, err, tail(eb.String(), 4000))
 					return
 				}
